@@ -26,14 +26,17 @@ def variant_helper_by_cases(F, h):
     (|n| <= 2^53, bool, text): each must come out as QJsonValue::fromVariant would make it - a number as a JSON number, not as text.
     (True/False/None, text)"""
     from engine.conc import Conc, Unknown
-    MT = {"Bool": 1, "Int": 2, "UInt": 3, "LongLong": 4, "ULongLong": 5, "Double": 6, "QString": 10}
+    # QMetaType ids (Qt 5 and 6 agree on these): the whole numeric range 32..40 is there because range tests over the ids (`type >= Long && type <= SChar`)
+    # also contain Float
+    MT = {"Bool": 1, "Int": 2, "UInt": 3, "LongLong": 4, "ULongLong": 5, "Double": 6, "QString": 10, "Long": 32, "Short": 33, "Char": 34, "ULong": 35, "UShort": 36, "UChar": 37, "Float": 38, "SChar": 40}
     if len(h.params) != 1 or "QVariant" not in (h.params[0].get("type") or ""):
         return None, "the attribute value is converted by %s, which is not a function of one QVariant" % strip_tmpl(h.name).split("::")[-1]
     pd = h.params[0]["decl"]
     B = 1 << 53
     cases = [("Int", v) for v in (-2147483648, -42, -1, 0, 1, 42, 2147483647)] + [("UInt", v) for v in (0, 1, 4294967295)] + \
             [("LongLong", v) for v in (-B, -42, -1, 0, 1, 42, B)] + [("ULongLong", v) for v in (0, 1, 42, B)] + [("Double", v) for v in (-1.5, 0.0, 2.5)] + \
-            [("Bool", v) for v in (0, 1)] + [("QString", v) for v in ("", "text", "42", "2024-05-15T10:00:00")]
+            [("Bool", v) for v in (0, 1)] + [("QString", v) for v in ("", "text", "42", "2024-05-15T10:00:00")] + \
+            [("Float", v) for v in (0.25, 36.5, -1.5, 3.0)] + [("Long", v) for v in (-42, 0, 42)] + [("ULong", 42), ("Short", -3), ("UShort", 9), ("Char", 65), ("UChar", 200), ("SChar", -5)]
     bad = []
     for tname, v in cases:
         var = ("variant", tname, v)
@@ -48,7 +51,7 @@ def variant_helper_by_cases(F, h):
                 if not (o.get("k") == "ref" and o.get("decl") == pd):
                     return None
                 short = strip_tmpl(n.get("callee") or "").split("::")[-1]
-                num = tname in ("Int", "UInt", "LongLong", "ULongLong", "Bool", "Double")
+                num = tname != "QString"
                 if short in ("userType", "type", "typeId"):
                     return MT[tname]
                 if short in ("toULongLong", "toUInt") and num:
